@@ -294,7 +294,8 @@ def _run_sharded(exe, lines, nshards=NPROC, timeout=3600, env=None, per_shard=20
             except subprocess.TimeoutExpired:
                 if not case_budget:
                     raise
-                outs[i] = _run_one_by_one(exe, chunks[i], env, per_case_timeout=5, max_timeouts=3)
+                outs[i] = _run_one_by_one(exe, chunks[i], env, per_case_timeout=5,
+                                          max_timeouts=int(os.environ.get("MW_IMPL_MAX_TIMEOUTS", "3")))
                 return
             res = p.stdout.split("\n")
             if res and res[-1] == "":
